@@ -433,7 +433,8 @@ def docOf (st : State) (k : Kind) (part : Nat) (method : String) (vals : List Js
       (Json.obj [(Gen.wireName m, .obj fs)], m)
   | none => none
 
-def fundsText (amount : String) : String := if amount == "0" then "" else amount ++ "utok"
+def fundsText (amount : String) : String :=
+  if amount.all Char.isDigit then (if amount == "0" then "" else amount ++ "utok") else amount
 
 def opXh (st : State) (rest : String) : String :=
   match splitN rest 10 with
@@ -444,7 +445,7 @@ def opXh (st : State) (rest : String) : String :=
       | some (doc, _) =>
         let r : Runtime.Remote Unit := { addr := utf8OfHex addr }
         let m := Runtime.executorBuild r [fundsText amount] doc.render
-        let c : Dispatch.CtxIn := { sender := sender, funds := amount, height := height, seed := seed, fail := fail }
+        let c : Dispatch.CtxIn := { sender := sender, funds := if amount.all Char.isDigit then amount else "0", height := height, seed := seed, fail := fail }
         "execute addr=" ++ m.contractAddr ++ " funds=" ++ m.funds ++ " body=" ++ m.body ++ " => "
           ++ Dispatch.showOutcome (progOf st) (Dispatch.route (progOf st) .exec doc c)
       | none => "err bad-args"
